@@ -865,6 +865,61 @@ struct T16 {
         });
         break;
       }
+      case K_RVALUE_VIEW_OPS: {
+        // Operators and const members on views that are RVALUES: a temporary Map, a moved-from Map, the
+        // prvalue returned by a sub-part accessor of a mutable view. An "expiring" view still does not
+        // own the memory it shows: nothing may be written, results equal those of value objects.
+        const G val = value_at(mi(c, r));
+        const G sv = value_at(mi(c, sr));
+        const auto a = rand_vec<S, G::Dof>(in, 0.7);
+        emit(c.exp, c.exp_bytes, (val * sv).coeffs());
+        emit(c.exp, c.exp_bytes, (val + a).coeffs());
+        emit(c.exp, c.exp_bytes, val - sv);
+        emit(c.exp, c.exp_bytes, val.inverse().coeffs());
+        emit(c.exp, c.exp_bytes, val.log());
+        emit(c.exp, c.exp_bytes, (val * sv).coeffs());
+        emit(c.exp, c.exp_bytes, (val + a).coeffs());
+        with_src(c, [&](const auto& s) {
+          emit(c.out, c.out_bytes, (smooth::Map<G>(ar(c, r)) * s).coeffs());
+          emit(c.out, c.out_bytes, (smooth::Map<G>(ar(c, r)) + a).coeffs());
+          emit(c.out, c.out_bytes, smooth::Map<G>(ar(c, r)) - s);
+          emit(c.out, c.out_bytes, smooth::Map<G>(ar(c, r)).inverse().coeffs());
+          emit(c.out, c.out_bytes, smooth::Map<G>(ar(c, r)).log());
+          smooth::Map<G> t1(ar(c, r)), t2(ar(c, r));
+          emit(c.out, c.out_bytes, (std::move(t1) * s).coeffs());
+          emit(c.out, c.out_bytes, (std::move(t2) + a).coeffs());
+        });
+        if constexpr (L::n > 0) {
+          const int part = k.part % L::n;
+          const int off = L::parts[(std::size_t)part].off, len = L::parts[(std::size_t)part].len;
+          const S* mp = mi(c, r) + off;
+          with_mut(c, [&](auto& m) {
+            with_part(m, part, [&](auto pv, auto idx) {
+              using PV = decltype(pv);
+              constexpr int kind = part_kind<PV>();
+              constexpr int I = decltype(idx)::value;
+              if constexpr (kind == 0) {
+                using P = LiePlain<PV>;
+                P mv;
+                for (int i = 0; i < len; ++i) mv.coeffs()(i) = mp[i];
+                const P x = rand_elem<P>(in);
+                const auto t = rand_vec<S, P::Dof>(in, 0.7);
+                emit(c.exp, c.exp_bytes, (mv * x).coeffs());
+                emit(c.exp, c.exp_bytes, (mv + t).coeffs());
+                emit(c.exp, c.exp_bytes, mv - x);
+                emit(c.exp, c.exp_bytes, mv.inverse().coeffs());
+                emit(c.exp, c.exp_bytes, mv.log());
+                emit(c.out, c.out_bytes, (L::template get<I>(m) * x).coeffs());
+                emit(c.out, c.out_bytes, (L::template get<I>(m) + t).coeffs());
+                emit(c.out, c.out_bytes, L::template get<I>(m) - x);
+                emit(c.out, c.out_bytes, L::template get<I>(m).inverse().coeffs());
+                emit(c.out, c.out_bytes, L::template get<I>(m).log());
+              }
+            });
+          });
+        }
+        break;
+      }
       case K_HELPERS: {
         const G val = value_at(mi(c, r));
         auto helpers = [&](const auto& v, unsigned char* buf, int& n) {
